@@ -12,6 +12,14 @@ func H_C11_CompoundRoundTrip() {
 	for i := 0; i < n; i++ {
 		msgs[i] = vBytes(vPick(4)) // 0..3 bytes each
 	}
+	if n > 0 {
+		// one part may be long enough to need both bytes of its length field
+		if big := []int{0, 255, 256, 511, 65535}[vPick(5)]; big > 0 {
+			i := vPick(n)
+			msgs[i] = make([]byte, big)
+			msgs[i][0], msgs[i][big-1] = vU8(), vU8()
+		}
+	}
 	buf := makeCompoundMessage(msgs).Bytes()
 	vAssert(buf[0] == byte(compoundMsg), "c11.rt.type")
 	trunc, parts, err := decodeCompoundMessage(buf[1:])
@@ -55,7 +63,10 @@ func H_C11_Budget() {
 		c.key = vBytes(16)
 	}
 	conf := vBaseConfig()
-	c.apply(conf)
+	c.apply(conf) // (compression stays off here: it is only ever used when it shrinks the packet)
+	if c.enc != 0 && vPick(2) == 1 {
+		conf.GossipVerifyOutgoing = false // keyring present but nothing is encrypted on the way out
+	}
 	// the message the broadcasts are piggybacked on always fits on its own (59 = label 5 + crc 5 + encryption 45
 	// + compound header 4); what is decided is whether adding queued broadcasts can overflow the buffer
 	pingBuf, perr := encode(pingMsg, &ping{SeqNo: vU32(), Node: vPeerA}, false)
@@ -82,7 +93,8 @@ func H_C11_Budget() {
 	vOpt("enclen", 11)
 	m.encodeBroadcastNotify("z", suspectMsg, &suspect{Node: "z"}, nil)
 	vOpt("enclen", 3)
-	f.del.bcast = [][]byte{vBytes(1), vBytes(2), vBytes(0)}
+	// user broadcasts costing 4, 5 and 3 bytes each: together they can fill almost any remaining budget exactly
+	f.del.bcast = [][]byte{vBytes(1), vBytes(2), vBytes(0), vBytes(1), vBytes(0), vBytes(0), vBytes(1), vBytes(0)}
 	to := Address{Addr: "10.0.0.2:7946", Name: vPeerA}
 	if vPick(2) == 0 {
 		vAssert(m.sendMsg(to, first) == nil, "c11.budget.send-ok")
